@@ -66,6 +66,8 @@ inductive Op where
   | verify (c : ClientId)
   | finalize (c : ClientId) (i : Idx) (a : Anon)
   | finalizeBad (c : ClientId)
+  /-- a `VerifyRequest` call that fails one of its checks (C06): answered with an error, no state -/
+  | verifyBad (c : ClientId)
   deriving Repr, DecidableEq
 
 inductive Out where
@@ -101,6 +103,7 @@ def step (s : Cache) : Op → Cache × Out
     | some _ => (s, .verified)
     | none => (Map.set s c emptyState, .verified)
   | .finalizeBad _ => (s, .badKey)
+  | .verifyBad _ => (s, .badKey)
   | .finalize c i a =>
     match Map.get s c with
     | none => (s, .unknownClient)
@@ -153,6 +156,7 @@ def conflictIn (h : History) (c : ClientId) (i : Idx) (a : Anon) : Bool :=
 def expected (h : History) : Op → Out
   | .verify _ => .verified
   | .finalizeBad _ => .badKey
+  | .verifyBad _ => .badKey
   | .finalize c i a =>
     if !verifiedIn h c then .unknownClient
     else if conflictIn h c i a then .repeated
@@ -171,6 +175,7 @@ bound to the same anonymous origin ID -/
 def Spec.step (s : Spec) : Op → Spec × Out
   | .verify c => (⟨fun c' => if c' = c then true else s.known c', s.bound⟩, .verified)
   | .finalizeBad _ => (s, .badKey)
+  | .verifyBad _ => (s, .badKey)
   | .finalize c i a =>
     if !s.known c then (s, .unknownClient)
     else
